@@ -22,6 +22,9 @@ mod lazy;
 mod tests;
 mod world_ext;
 
+#[cfg(specs_verif)]
+pub use self::entity::verif;
+
 /// An iterator for entity creation.
 /// Please note that you have to consume
 /// it because iterators are lazy.
